@@ -1,5 +1,5 @@
 //@ unit U-SESSSHARD
-//@ props C11 C05
+//@ props C11 C05 C16
 //@ verus-args --rlimit 100 --triggers-mode silent
 //@ rules-from shflush
 //@ gsubst `dyn Client + Send + Sync` => `VxClient` :: R11 stub type for the cas_client trait object (not called by the functions under proof)
@@ -387,7 +387,7 @@ impl SessionShardInterface {
 //@ subst `Result<` => `DataResult<` :: the data crate's `Result` alias
 //@ contract
         requires vx_counter_fits(), cas_fits(cas_block_contents),
-        ensures /*@C11*/ r is Ok ==> vx_cas_recorded(cas_block_contents.metadata.cas_hash) && vx_recorded_block(cas_block_contents)
+        ensures /*@C11,C16*/ r is Ok ==> vx_cas_recorded(cas_block_contents.metadata.cas_hash) && vx_recorded_block(cas_block_contents)
             // recorded in the SESSION manager (the one whose shards are uploaded and registered at finalize), not the cache manager
             && locked_here(*self.session_shard_manager),
 //@ end
@@ -397,7 +397,7 @@ impl SessionShardInterface {
 //@ subst `Result<` => `DataResult<` :: the data crate's `Result` alias
 //@ contract
         requires vx_counter_fits(), spec_file_num_bytes(file_info) <= 0xff_ffff_ff00,
-        ensures /*@C11*/ r is Ok ==> vx_recorded(VxRecId::File(file_info.metadata.file_hash)) && locked_here(*self.session_shard_manager),
+        ensures /*@C11,C16*/ r is Ok ==> vx_recorded(VxRecId::File(file_info.metadata.file_hash)) && locked_here(*self.session_shard_manager),
 //@ end
 }
 
